@@ -166,3 +166,19 @@ def full_config(draw, names, start, end, alpha_kinds=('fixed', 'single', 'topn',
         cfg['portfolio_id'] = pid
         labels.append('custom_portfolio_id')
     return cfg, sorted(set(labels))
+
+
+def add_watched(draw, cfg, mk, names, d0, ndays, seed):
+    """Adds a symbol that is only watched by the signals (never traded) and whose file starts a few days into the
+    session: listed FIRST in a static signal universe, so on those days it has no quote while the others do."""
+    import datetime as D
+    from vlib import market
+    k = draw(st.integers(2, 8))
+    rows = market.build_rows(seed + 4242, d0 + D.timedelta(days=k), max(3, ndays - k + 2))
+    if not rows:
+        return False
+    mk['WCH'] = rows
+    cfg['signal_universe'] = {'kind': 'static', 'assets': ['EQ:WCH'] + ['EQ:' + n for n in names]}
+    if not cfg.get('signals'):
+        cfg['signals'] = {'momentum': [2], 'sma': [3]}
+    return True
